@@ -79,6 +79,39 @@ Definition run_conc (a : sx) : sx :=
   | _ => sx_err "shape"
   end.
 
+(* c16.blk: (dag block-root (tx-index ...)) -> per index what decoding THAT cell as a
+   transaction reports: (lt hash (in_msg-hash)?) | 'err.  The indices are the
+   transaction cells found by walking the ShardAccountBlocks dictionaries of the
+   block; the Go side compares the multiset of (lt, hash) every accessor of the
+   decoded block hands out with this list. *)
+Definition run_blk (a : sx) : sx :=
+  match a with
+  | SL [SL dag; SN _; SL idxs] =>
+      match nodes_of_sx dag with
+      | Some cells =>
+          let trees := trees_of 0 cells in
+          let imms := eval_dag sha256 0 cells in
+          SL (map (fun ix =>
+                     match ix with
+                     | SN i =>
+                         let k := N.to_nat i in
+                         match nth_error trees k with
+                         | Some (Ok c) =>
+                             match decode_tx_gen the_oracle (cached_hash_of imms k) (hash_cell sha256) c with
+                             | Ok t => SL [SN (tx_lt t); SBytes (tx_hash t);
+                                           match tx_in_msg t with Some m => SL [SBytes (m_hash m)] | None => SL [] end]
+                             | Err _ => SA "err"
+                             | Panic _ => SA "panic"
+                             end
+                         | _ => sx_err "index"
+                         end
+                     | _ => sx_err "index"
+                     end) idxs)
+      | None => sx_err "dag"
+      end
+  | _ => sx_err "shape"
+  end.
+
 (* c16.lvl: (dag root kind _) -> (cell-hash decoded): the representation hash
    (level 3) of the cell at [root], a cell of any level anywhere in the array,
    and what decoding it as a message (kind 0) / transaction (kind 1) reports:
@@ -277,6 +310,7 @@ Definition run_hmsg (a : sx) : sx :=
 Definition run (name : string) (a : sx) : sx :=
   if String.eqb name "c16.msg" then run_msg a
   else if String.eqb name "c16.tx" then run_tx a
+  else if String.eqb name "c16.blk" then run_blk a
   else if String.eqb name "c16.lvl" then run_lvl a
   else if String.eqb name "c16.lib" then run_lib a
   else if String.eqb name "c16.conc" then run_conc a
